@@ -48,7 +48,9 @@ EXTENDS Integers, Sequences, FiniteSets, TLC, Json
 
 CONSTANTS MaxRules,      \* rewrite lines + redir lines of one site
           Sample2,       \* of the sites with two lines one in Sample2 is set up and served (hash of the ids and -seed; 1 = all)
-          Sample3        \* the same for sites with three or more lines
+          Sample3,       \* the same for sites with three or more lines
+          BaseMode       \* "cleaned": NewComplexRule cleans the base path (the repaired code); "as-written": it keeps the text
+                         \* of the Casketfile (the code before the repair - TLC then refutes SliceInBounds; negative control)
 
 -----------------------------------------------------------------------------
 (* 1. strings *)
@@ -205,7 +207,7 @@ Dirs  == {<<"/">>, <<"/","d">>}
 Exists(t) == LET n == Clean(<<"/">> \o t) IN IF HasSuffix(t, <<"/">>) THEN n \in Dirs ELSE n \in Files
 
 ReqPaths == << <<"/">>, <<"/","a",".","h","t","m","l">>, <<"/","o","l","d">>, <<"/","x","/","o","l","d">>, <<"/","d","/","x",".","h","t","m","l">>, <<"/","d","/">>, <<"/","d","/","n","o","n","e">>, <<"/","d","/","y",".","p","h","p">>,
-               <<"/","D","/","x",".","h","t","m","l">>, <<"/","d","x">>, <<"/","d","/",".",".","/","a",".","h","t","m","l">>, <<"/","a","p","i","/","v","1">>, <<"/","a","p","i","/","{","m","e","t","h","o","d","}">>, <<"/","n","e","w">> >>
+               <<"/","D","/","x",".","h","t","m","l">>, <<"/","d","x">>, <<"/","d","/","x">>, <<"/","d","/",".",".","/","a",".","h","t","m","l">>, <<"/","a","p","i","/","v","1">>, <<"/","a","p","i","/","{","m","e","t","h","o","d","}">>, <<"/","n","e","w">> >>
 \* every path is sent with these (method, query) pairs
 ReqForms == << [m |-> <<"G","E","T">>, qs |-> <<>>], [m |-> <<"P","O","S","T">>, qs |-> <<>>], [m |-> <<"G","E","T">>, qs |-> <<"k","=","v">>], [m |-> <<"G","E","T">>, qs |-> <<"p","=","{","p","a","t","h","}">>] >>
 NReq == Len(ReqPaths) * Len(ReqForms)
@@ -245,7 +247,9 @@ RwPool == [
   c_and   |-> Complex(<<"/">>, NoRx, <<>>, << If(<<[pk |-> "ph", pv |-> <<"p","a","t","h">>]>>, TRUE, "starts_with", <<[pk |-> "lit", pv |-> <<"/","d">>]>>), If(<<[pk |-> "ph", pv |-> <<"q","u","e","r","y">>]>>, FALSE, "not", <<[pk |-> "lit", pv |-> <<"k","=","v">>]>>),
                                           IfMatchRx(<<[pk |-> "ph", pv |-> <<"p","a","t","h">>]>>, TRUE, Rx(TRUE, <<"/","a">>, "none", <<>>, FALSE)) >>, FALSE, << <<[pk |-> "lit", pv |-> <<"/","g","a","t","e">>], [pk |-> "ph", pv |-> <<"p","a","t","h">>]>> >>),
   \* rewrite /api { r ^/v([0-9]+)$ ; to /d/{1}?{query} }        (the regexp sees the path behind the base)
-  c_base  |-> Complex(<<"/","a","p","i">>, Rx(TRUE, <<"/","v">>, "digits", <<>>, TRUE), <<>>, <<>>, FALSE, << <<[pk |-> "lit", pv |-> <<"/","d","/">>], [pk |-> "ph", pv |-> <<"1">>], [pk |-> "lit", pv |-> <<"?">>], [pk |-> "ph", pv |-> <<"q","u","e","r","y">>]>> >>)
+  c_base  |-> Complex(<<"/","a","p","i">>, Rx(TRUE, <<"/","v">>, "digits", <<>>, TRUE), <<>>, <<>>, FALSE, << <<[pk |-> "lit", pv |-> <<"/","d","/">>], [pk |-> "ph", pv |-> <<"1">>], [pk |-> "lit", pv |-> <<"?">>], [pk |-> "ph", pv |-> <<"q","u","e","r","y">>]>> >>),
+  \* rewrite /d//x { r \.html$ ; to /a.html?dirty=1 }           (a base that is not clean: acts as /d/x)
+  c_dirty |-> Complex(<<"/","d","/","/","x">>, Rx(FALSE, <<".","h","t","m","l">>, "none", <<>>, TRUE), <<>>, <<>>, FALSE, << <<[pk |-> "lit", pv |-> <<"/","a",".","h","t","m","l","?","d","i","r","t","y","=","1">>]>> >>)
 ]
 RwIds == DOMAIN RwPool
 
@@ -355,7 +359,7 @@ IdNum(id) == CASE id = "s_exact" -> 1 [] id = "s_loose" -> 2 [] id = "s_not" -> 
                [] id = "c_rx" -> 7 [] id = "c_extn" -> 8 [] id = "c_extp" -> 9 [] id = "c_post" -> 10 [] id = "c_or" -> 11 [] id = "c_and" -> 12
                [] id = "c_base" -> 13 [] id = "r_old" -> 14 [] id = "r_old2" -> 15 [] id = "r_abs" -> 16 [] id = "r_guard" -> 17 [] id = "r_moved" -> 18
                [] id = "r_rel" -> 19 [] id = "r_meta" -> 20 [] id = "r_tab" -> 21 [] id = "r_or" -> 22 [] id = "r_same" -> 23 [] id = "r_nothas" -> 24
-               [] id = "r_all" -> 25 [] OTHER -> 26
+               [] id = "r_all" -> 25 [] id = "c_dirty" -> 27 [] OTHER -> 26
 RECURSIVE HashSeq(_, _)
 HashSeq(b, x) == IF x > Len(b) THEN 0 ELSE ((x * 31 + 7) * IdNum(b[x]) + HashSeq(b, x + 1)) % 1000003
 Sampled(a, b) == LET lines == Len(a) + Len(b)
@@ -386,9 +390,11 @@ ValidExt(v) == ~(Len(v) < 2 \/ (Len(v) < 3 /\ v[1] = "!")) \/ v = <<"/">> \/ v =
 RwLineOK(l) == /\ l.extra = ""                                   \* default: return nil, c.ArgErr()
                /\ l.to # <<>>                                    \* "ensure to is specified"
                /\ \A x \in 1..Len(l.exts) : ValidExt(l.exts[x])  \* NewComplexRule
+\* NewComplexRule: the base is kept in its cleaned form, the one Path.Matches compares with
+Compile(l) == IF l.kind = "complex" /\ BaseMode = "cleaned" /\ l.base # <<>> THEN [l EXCEPT !.base = CleanKeepSlash(l.base)] ELSE l
 RwParseLine == /\ pc = "rwparse" /\ n <= Len(rw)
                /\ IF RwLineOK(RwLine(rw[n]))
-                  THEN rules' = Append(rules, RwLine(rw[n])) /\ n' = n + 1 /\ pc' = pc
+                  THEN rules' = Append(rules, Compile(RwLine(rw[n]))) /\ n' = n + 1 /\ pc' = pc
                   ELSE pc' = "rejected" /\ UNCHANGED <<rules, n>>
                /\ UNCHANGED <<rw, rd, rdrules, req, c, i, sel, k, t, q, qsrc, napplied, j, out>>
 RwParseDone == /\ pc = "rwparse" /\ n > Len(rw)
@@ -401,13 +407,17 @@ RdRule(l, e) == LET code == IF e.code = "" THEN (IF l.dcode = "" THEN "301" ELSE
                 [from |-> e.from, to |-> e.to, meta |-> code = "meta",
                  code |-> IF code = "meta" THEN CodeNum[IF l.dcode = "" THEN "301" ELSE l.dcode] ELSE CodeNum[code],
                  conds |-> l.conds, isOr |-> l.isOr, hasif |-> HasIf(l)]
-\* checkAndSaveRule
-RdRuleOK(r, saved) == /\ r.from # Flat(r.to)
-                      /\ (~r.hasif => \A x \in 1..Len(saved) : saved[x].from # r.from)
-RECURSIVE RdSave(_, _, _)      \* the entries of one line, in order: [ok, rs = the grown list]
-RdSave(l, x, saved) == IF x > Len(l.entries) THEN [ok |-> TRUE, rs |-> saved]
-                       ELSE LET r == RdRule(l, l.entries[x]) IN
-                            IF RdRuleOK(r, saved) THEN RdSave(l, x + 1, Append(saved, r)) ELSE [ok |-> FALSE, rs |-> saved]
+\* checkAndSaveRule.  "prevent obvious duplicates (rules with if statements exempt)": the code exempts the rule that is
+\* being added, not the rules it is compared with (both = FALSE); both = TRUE exempts conditional rules on either side.
+\* Sites on which the two readings differ (a conditional rule FOLLOWED by an unconditional one with the same from, e.g. a
+\* guarded catch-all and then the plain catch-all) are refused by the code; the check does not judge them (SetupFree).
+RdRuleOK(r, saved, both) == /\ r.from # Flat(r.to)
+                            /\ (~r.hasif => \A x \in 1..Len(saved) : saved[x].from # r.from \/ (both /\ saved[x].hasif))
+RECURSIVE RdSaveM(_, _, _, _)      \* the entries of one line, in order: [ok, rs = the grown list]
+RdSaveM(l, x, saved, both) == IF x > Len(l.entries) THEN [ok |-> TRUE, rs |-> saved]
+                              ELSE LET r == RdRule(l, l.entries[x]) IN
+                                   IF RdRuleOK(r, saved, both) THEN RdSaveM(l, x + 1, Append(saved, r), both) ELSE [ok |-> FALSE, rs |-> saved]
+RdSave(l, x, saved) == RdSaveM(l, x, saved, FALSE)
 RdParseLine == /\ pc = "rdparse" /\ n <= Len(rd)
                /\ LET s == RdSave(RdPool[rd[n]], 1, rdrules) IN
                   IF ~s.ok THEN pc' = "rejected" /\ UNCHANGED <<rdrules, n>>
@@ -520,7 +530,7 @@ Spec == Init /\ [][Next]_vars
 (* 7. the declarative part *)
 
 \* ---- the documented result, with quantifiers instead of loops
-RwLinesOf(ids) == [x \in 1..Len(ids) |-> RwLine(ids[x])]
+RwLinesOf(ids) == [x \in 1..Len(ids) |-> Compile(RwLine(ids[x]))]
 RECURSIVE RdRulesOf(_, _, _)      \* [ok, rs]: ok is FALSE when checkAndSaveRule refuses an entry
 RdRulesOf(ids, x, saved) == IF x > Len(ids) THEN [ok |-> TRUE, rs |-> saved]
                             ELSE LET s == RdSave(RdPool[ids[x]], 1, saved) IN
@@ -529,6 +539,12 @@ RdRulesOf(ids, x, saved) == IF x > Len(ids) THEN [ok |-> TRUE, rs |-> saved]
 \* a redir rule iff its from and to differ and (unless it has conditions) no rule before it has the same from
 Accepted(rwids, rdids) == /\ \A x \in 1..Len(rwids) : RwLineOK(RwLine(rwids[x]))
                           /\ RdRulesOf(rdids, 1, <<>>).ok
+RECURSIVE RdOKBoth(_, _, _)
+RdOKBoth(ids, x, saved) == IF x > Len(ids) THEN TRUE
+                           ELSE LET s == RdSaveM(RdPool[ids[x]], 1, saved, TRUE) IN s.ok /\ RdOKBoth(ids, x + 1, s.rs)
+\* refused only because a conditional rule precedes an unconditional one with the same from: not judged
+SetupFree(rwids, rdids) == /\ \A x \in 1..Len(rwids) : RwLineOK(RwLine(rwids[x]))
+                           /\ ~RdRulesOf(rdids, 1, <<>>).ok /\ RdOKBoth(rdids, 1, <<>>)
 
 \* the target taken: the first one that exists under the root, else the last one
 TargetDecl(l, cx) == LET ev == [x \in 1..Len(l.to) |-> EvalTarget(l.to[x], cx)]
@@ -548,9 +564,9 @@ ApplyDecl(l, cx) == LET m == IF l.rx.on THEN RxSub(l, cx.cp) ELSE <<>>
                         \* the query was carried over from a target that was NOT taken: an accident of the loop, not judged
                         free |-> (~tg.own /\ tg.query # <<>> /\ tg.query # cx.cq)]
 \* both are functions of (line, original request): tabulated once, so that the invariants below are look-ups
-MatchTab == [id \in RwIds |-> [x \in 1..NReq |-> RwMatch(RwPool[id], Ctx0(x))]]
-ApplyTab == [id \in RwIds |-> [x \in 1..NReq |-> IF MatchTab[id][x] THEN ApplyDecl(RwPool[id], Ctx0(x)) ELSE [cx |-> Ctx0(x), idx |-> 0, free |-> FALSE]]]
-BaseLen(id) == Len(RwPool[id].base)
+MatchTab == [id \in RwIds |-> [x \in 1..NReq |-> RwMatch(Compile(RwPool[id]), Ctx0(x))]]
+ApplyTab == [id \in RwIds |-> [x \in 1..NReq |-> IF MatchTab[id][x] THEN ApplyDecl(Compile(RwPool[id]), Ctx0(x)) ELSE [cx |-> Ctx0(x), idx |-> 0, free |-> FALSE]]]
+BaseLen(id) == Len(Compile(RwPool[id]).base)
 
 \* the rule that rewrites request x on a site with the rewrite lines ids: it matches; no matching rule has a longer
 \* base path ("This chooses the config with the longest length"); among those with an equally long base the one written first
@@ -595,8 +611,12 @@ FirstMatchWins == pc = "rewrite" =>
     /\ MatchTab[rw[sel]][req]
     /\ \A y \in 1..(sel - 1) : MatchTab[rw[y]][req] => BaseLen(rw[y]) < BaseLen(rw[sel])
     /\ \A y \in (sel + 1)..Len(rw) : MatchTab[rw[y]][req] => BaseLen(rw[y]) <= BaseLen(rw[sel])
-\* Go would panic on path[start:] if the base were longer than the path it matched
-SliceInBounds == pc \in {"rewrite", "to", "commit"} => RxStart(rules[sel].base) <= Len(Req(req).p)
+\* regexpMatches slices path[start:]: Go panics if a path that passed Path.Matches is shorter than the rule's base
+\* (possible only while the base is kept as written: /d//x matches a request for /d/x)
+SliceInBounds == pc = "select" /\ i <= Len(rules) =>
+    LET l == rules[i] IN
+    (l.rx.on /\ (l.kind = "complex" => IfMatch(l.conds, l.isOr, c) /\ PathMatches(c.cp, l.base) /\ MatchExt(l.exts, c.cp)))
+        => RxStart(l.base) <= Len(c.cp)
 \* rewrite.To: the target taken exists or is the last one, and every target before it was looked at and does not exist
 ToFallbackOrder == pc = "commit" =>
     /\ \A x \in 1..(k - 1) : ~Exists(EvalTarget(rules[sel].to[x], c).path)
@@ -664,7 +684,7 @@ LibraryOK ==
     /\ RxFind(Rx(FALSE, <<"/","o","l","d">>, "none", <<>>, FALSE), <<"/","x","/","o","l","d","/","y">>) = << <<"/","o","l","d">> >>
     /\ RxFind(Rx(TRUE, <<"/","v">>, "digits", <<>>, TRUE), <<"/","v","1","x">>) = <<>>
     /\ Location(<<"l","a","n","d","e","d">>, <<"/","d","/","x",".","h","t","m","l">>) = <<"/","d","/","l","a","n","d","e","d">> /\ Location(<<"/","t","2","/",".",".","/","x","/","?","a","=","/",".",".","/","b">>, <<"/">>) = <<"/","x","/","?","a","=","/",".",".","/","b">>
-    /\ PathMatches(<<"/","d","x">>, <<"/","d">>) /\ PathMatches(<<"/","D","/","x",".","h","t","m","l">>, <<"/","d">>) /\ ~PathMatches(<<"/","d","/",".",".","/","a",".","h","t","m","l">>, <<"/","d">>) /\ ~PathMatches(<<"/","d">>, <<"/","d","/">>)
+    /\ PathMatches(<<"/","d","x">>, <<"/","d">>) /\ PathMatches(<<"/","d","/","x">>, <<"/","d","/","/","x">>) /\ PathMatches(<<"/","D","/","x",".","h","t","m","l">>, <<"/","d">>) /\ ~PathMatches(<<"/","d","/",".",".","/","a",".","h","t","m","l">>, <<"/","d">>) /\ ~PathMatches(<<"/","d">>, <<"/","d","/">>)
 ASSUME LibraryOK
 
 -----------------------------------------------------------------------------
@@ -689,7 +709,7 @@ EmitHead(dummy) ==   \* (the parameter keeps TLC from evaluating this eagerly as
         files |-> SetToSeq({Str(f) : f \in Files}), dirs |-> SetToSeq({Str(d) : d \in Dirs}),
         rwpool |-> SetToSeq({RwJson(id) : id \in RwIds \cup BadIds}), rdpool |-> SetToSeq({RdJson(id) : id \in RdIds}),
         conds |-> [y \in 1..Len(CondPool) |-> [cond |-> CondJson(CondPool[y]), row |-> Row[y]]]])>>)
-EmitSite == PrintT(<<"CASE", ToJson([kind |-> "site", rwl |-> rw, rdl |-> rd, ok |-> pc = "ready",
+EmitSite == PrintT(<<"CASE", ToJson([kind |-> "site", rwl |-> rw, rdl |-> rd, ok |-> pc = "ready", sfree |-> (pc = "rejected" /\ SetupFree(rw, rd)),
                 exp |-> IF pc = "ready" THEN LET rs == RdRulesOf(rd, 1, <<>>).rs IN [x \in 1..NReq |-> OutTuple(ExpectedWith(rw, rs, x))]
                         ELSE <<>>])>>)
 Emit == /\ (pc = "build" /\ rw = <<>> /\ rd = <<>> => EmitHead(rw))
